@@ -252,16 +252,14 @@ func runRace(prop, tier, name string, budget time.Duration) *WorkerResult {
 		t0 := time.Now()
 		for i := 0; (i < minRuns || time.Since(t0) < share) && viol == nil; i++ {
 			x := &Run{Vals: map[string]interface{}{}}
-			done := make(chan interface{}, 1)
+			done := make(chan struct{})
 			go func() {
-				defer func() { done <- recover() }()
+				defer func() { _ = recover(); close(done) }()
 				sc.Body(x)
 			}()
-			select {
-			case p := <-done:
+			if waitAlive(done, 30*time.Second) {
 				// what a body finds wrong with its own results (failf) is a violation of the free-running pass too;
 				// panics are left to the controlled exploration, where they come with a schedule
-				_ = p
 				x.mu.Lock()
 				fail := x.Fail
 				x.mu.Unlock()
@@ -277,10 +275,10 @@ func runRace(prop, tier, name string, budget time.Duration) *WorkerResult {
 					viol = &Violation{Property: prop, Scenario: "race-pass", Clause: "free-running " + sc.Name + ": " + parts[0], Detail: parts[1],
 						Params: map[string]string{"engine": "race"}}
 				}
-			case <-time.After(30 * time.Second):
+			} else {
 				// real goroutines, real locks: a body that does not come back is a hang (deadlock or lost wake-up)
 				viol = &Violation{Property: prop, Scenario: "race-pass", Clause: "free-running " + sc.Name + ": hang",
-					Detail: "the body did not finish within 30 s on real goroutines (it takes milliseconds): a goroutine is blocked for good", Params: map[string]string{"engine": "race"}}
+					Detail: "the body did not finish within 30 s of running time on real goroutines (it takes milliseconds): a goroutine is blocked for good", Params: map[string]string{"engine": "race"}}
 				st.Executions++
 				st.Sample = append(st.Sample, sc.Name)
 				st.WallS = time.Since(start).Seconds()
@@ -308,9 +306,7 @@ func replaySeq(v *Violation) int {
 	var cl, det string
 	done := make(chan struct{})
 	go func() { cl, det = j.Replay(v.Ops); close(done) }()
-	select {
-	case <-done:
-	case <-time.After(seqHangLimit):
+	if !waitAlive(done, seqHangLimit) {
 		fmt.Printf("VIOLATION property=%s clause=%q\nthe case did not return within %v\n", v.Property, "hang", seqHangLimit)
 		return 1
 	}
